@@ -163,6 +163,7 @@ func doBuild(tag string, gobin string, race, plain bool) *build {
 	}
 	pts.WriteString("}\n")
 	os.WriteFile(filepath.Join(dir, "verifsim", "worker", "points.go"), pts.Bytes(), 0o644)
+	os.WriteFile(filepath.Join(dir, "verifsim", "worker", "extra_api.go"), []byte(res.ExtraAPISrc), 0o644)
 
 	env := goEnv()
 	if v, err := cmdOut(dir, env, gobin, "version"); err == nil {
@@ -543,7 +544,7 @@ func runProperty(prop, tier string, seed uint64) int {
 	for i, tc := range tcs {
 		b := doBuild(prop, tc.bin, race, !race)
 		builds = append(builds, b)
-		fmt.Printf("built %s: %d files, %d preemption points, %d map ranges seeded, %s, %.1fs %s\n", prop, len(b.Instr.Files), b.Instr.Points, b.Instr.MapRanges, b.GoVer, b.BuildS, b.Instr.MapRangeNote)
+		fmt.Printf("built %s: %d files, %d preemption points, %d map ranges seeded, %d extra API wrappers, %s, %.1fs %s\n", prop, len(b.Instr.Files), b.Instr.Points, b.Instr.MapRanges, b.Instr.ExtraAPI, b.GoVer, b.BuildS, b.Instr.MapRangeNote)
 		share := budget
 		if len(tcs) > 1 {
 			if i == 0 {
